@@ -89,7 +89,15 @@ func (c *Context) goError(flags Condition) (Condition, error) {
 
 // etiny returns the smallest value an Exponent can contain.
 func (c *Context) etiny() int32 {
-	return c.MinExponent - int32(c.Precision) + 1
+	// Precision is a uint32: computed in int32 this wraps for precisions from
+	// 2^31 up (Neg(-9.2E-39) with Precision 3000000000 and MinExponent 0 came
+	// back as 1E+1294967297). No exponent can be below MinExponent, so that is
+	// as far down as Etiny needs to go.
+	e := int64(c.MinExponent) - int64(c.Precision) + 1
+	if e < MinExponent {
+		return MinExponent
+	}
+	return int32(e)
 }
 
 // shouldSetAsNaN determines whether setAsNaN should be called, given
